@@ -935,6 +935,14 @@ impl<'a, Input: InputIndexer> MatchAttempter<'a, Input> {
 
                     Insn::EnterLoop(fields) => {
                         // Entering a loop, not re-entering it.
+                        // A nested loop is entered once per iteration of the loop around it:
+                        // backtracking into an earlier iteration must find this loop's count
+                        // as it was then.
+                        let loop_data = self.s.loops.mat(fields.loop_id as usize);
+                        self.bts.push(BacktrackInsn::SetLoopData {
+                            id: fields.loop_id,
+                            data: *loop_data,
+                        });
                         self.s.loops.mat(fields.loop_id as usize).iters = 0;
                         match self.run_loop(fields, pos, ip) {
                             Some(next_ip) => {
